@@ -28,7 +28,7 @@ NCPU = min(16, os.cpu_count() or 4)
 # wall-clock guard in seconds after which no further run is ISSUED
 TIERS = {
     "quick": {"C06": (6000, 70), "C13": (1200, 60), "C14": (2400, 50), "C15": (4000, 60), "C20": (4500, 60)},
-    "thorough": {"C06": (60000, 900), "C13": (9000, 900), "C14": (40000, 1000), "C15": (50000, 900), "C20": (300000, 900)},
+    "thorough": {"C06": (60000, 600), "C13": (12000, 600), "C14": (40000, 700), "C15": (50000, 600), "C20": (300000, 600)},
 }
 LEVEL = {"C06": "exploration", "C13": "fault_enumeration", "C14": "exploration", "C15": "exploration", "C20": "exploration"}
 NT_CAP = 120000  # per-worker cap on stored non-trivial case hashes
